@@ -67,11 +67,11 @@ theorem inv_stepXferB (s s' : St) (f t : UnitId) (h : Inv s) (hs : stepXferB s f
   (first
    | (cases hs; done)
    | (rename_i hg
-      have e1 := cntP_erase s.owedL f (s.chargedPool f)
-      have e2 := cntU_erase s.owedL f (s.chargedPool f)
-      have e3 := cntU_pos_of_mem s.owedL f (s.chargedPool f) hg.2.2.2.2.1
-      have e4 : ∀ v q, (v, q) ∈ s.owedL.erase (f, s.chargedPool f) → (v, q) ∈ s.owedL := fun v q hm => List.mem_of_mem_erase hm
-      have e5 : ∀ v q, (v, q) ∈ s.owedL → (v, q) ≠ (f, s.chargedPool f) → (v, q) ∈ s.owedL.erase (f, s.chargedPool f) :=
+      have e1 := cntP_erase s.owedL f (s.pool t)
+      have e2 := cntU_erase s.owedL f (s.pool t)
+      have e3 := cntU_pos_of_mem s.owedL f (s.pool t) hg.2.2.2.2.1
+      have e4 : ∀ v q, (v, q) ∈ s.owedL.erase (f, s.pool t) → (v, q) ∈ s.owedL := fun v q hm => List.mem_of_mem_erase hm
+      have e5 : ∀ v q, (v, q) ∈ s.owedL → (v, q) ≠ (f, s.pool t) → (v, q) ∈ s.owedL.erase (f, s.pool t) :=
         fun v q hm hne => (List.mem_erase_of_ne hne).mpr hm
       close_tac h hs))
 
